@@ -1,0 +1,27 @@
+//go:build verif
+
+/*
+Verification hook (build tag `verif`): builds a signer around a stub acme client.
+Not compiled in regular builds.
+*/
+
+package acme
+
+import (
+	"time"
+
+	"github.com/jcmoraisjr/haproxy-ingress/pkg/types"
+)
+
+// VerifNewSigner creates the real signer with the given client already assigned,
+// as AcmeAccount() does after a successful account creation.
+func VerifNewSigner(logger types.Logger, cache Cache, metrics types.Metrics, client Client, expiring time.Duration) Signer {
+	return &signer{
+		logger:   logger,
+		cache:    cache,
+		metrics:  metrics,
+		account:  Account{Endpoint: "verif"},
+		client:   client,
+		expiring: expiring,
+	}
+}
